@@ -14,6 +14,9 @@ pub mod c19;
 #[path = "/verif/harness/cweb.rs"]
 pub mod cweb;
 
+#[path = "/verif/harness/cweb_e2e.rs"]
+pub mod cweb_e2e;
+
 #[path = "/verif/harness/c05.rs"]
 pub mod c05;
 
@@ -46,6 +49,10 @@ mod replay_entry {
             .unwrap_or_default();
         if module == "cweb" {
             super::cweb::replay_file();
+            return;
+        }
+        if module == "cweb_e2e" {
+            super::cweb_e2e::replay_file();
             return;
         }
         let mut s = RSrc::new(vals);
